@@ -1,9 +1,16 @@
-(* Lazy/LazyDeltaProofs.v — PROOF file for LazyDeltaVec.
-   delta_range_spec / delta_one_spec: for all sources, all monotone window-start mappings whose
-   windows do not start after their index (`wf_starts`), of any length (shorter or longer than the
-   source), all ranges: every element of every range read evaluates to the defining formula (no
-   panic), and collect_one_at returns the formula or nothing out of range.
-   The full statement (all monotone mappings) is refuted: see the *_refuted lemmas. *)
+(* Lazy/LazyDeltaProofs.v — PROOF file for LazyDeltaVec (DeltaSub on integers, DeltaChange on u32).
+   For all sources, all monotone window-start mappings whose windows do not start after their index
+   (`wf_starts`: DeltaSub start <= h + 1, i.e. empty windows included; DeltaChange start <= h), of any
+   length (shorter or longer than the source), with or without overflow checks:
+     * every element of every range read (read_into_at, for_each_range_dyn_at, fold_range_at,
+       try_fold_range_at incl. early exit) evaluates to the defining formula, nothing panics;
+     * collect_one_at returns the formula, or nothing out of range;
+     * read_sorted_into_at returns the formula over ANY index list, for EVERY arrangement of the reads that
+       sort_unstable_by_key may produce (every permutation), in particular for the model's insertion sort;
+     * cursor reads return the formula.
+   A window start beyond index + 1 is outside the property (not a window); `delta_start_cap_needed` shows
+   that the hypothesis cannot be dropped. *)
+From Coq Require Import Sorting.Permutation.
 From Anydb Require Import Common.Base Lazy.LazyBase Lazy.LazyBaseProofs Lazy.LazyFromProofs Lazy.LazyDelta.
 
 (* the defining formula of index h *)
@@ -20,13 +27,11 @@ Definition Dspec (t : ety) (op : dop) (src : list Z) (starts : list N) (h : N) :
   else None.
 
 (* monotone, and no window starts after its own index; an inclusive window (DeltaSub) may be empty
-   (start = h + 1) only when `h - start` is allowed to wrap (no overflow checks) *)
-Definition start_cap (ovf : bool) (op : dop) (h : N) : N :=
-  if ovf then h else match op with DSub => h + 1 | DChg => h end.
-Definition wf_starts (ovf : bool) (op : dop) (src : list Z) (starts : list N) : Prop :=
+   (start = h + 1) *)
+Definition start_cap (op : dop) (h : N) : N := match op with DSub => h + 1 | DChg => h end.
+Definition wf_starts (op : dop) (src : list Z) (starts : list N) : Prop :=
   (forall i j a b, i <= j -> get starts i = Some a -> get starts j = Some b -> a <= b) /\
-  (forall h st, h < len src -> get starts h = Some st -> st <= start_cap ovf op h).
-(* all monotone mappings: the property's quantifier *)
+  (forall h st, h < len src -> get starts h = Some st -> st <= start_cap op h).
 Definition mono_starts (starts : list N) : Prop :=
   forall i j a b, i <= j -> get starts i = Some a -> get starts j = Some b -> a <= b.
 
@@ -63,50 +68,62 @@ Qed.
 
 Section PD.
   Variables (ovf : bool) (t : ety) (op : dop) (src : list Z) (starts : list N).
-  Hypothesis WF : wf_starts ovf op src starts.
+  Hypothesis WF : wf_starts op src starts.
 
   Let L := N.min (len src) (len starts).
+  Let D := Dspec t op src starts.
 
-  Lemma cap_le h : start_cap ovf op h <= h + 1.
-  Proof. unfold start_cap. destruct ovf, op; lia. Qed.
+  (* what well-formedness gives for one index *)
+  Lemma wf_facts h st :
+    h < L -> get starts h = Some st ->
+    count_panics ovf op h st = false /\
+    (forall a, ago_index op st = Some a -> a <= h /\ a < len src) /\
+    (ago_index op st = None -> op = DSub).
+  Proof.
+    intros Hh Hst. destruct WF as [_ Hcap]. unfold L in Hh.
+    pose proof (Hcap h st ltac:(lia) Hst) as Hc. unfold start_cap in Hc.
+    unfold count_panics, ago_index. destruct op.
+    - split; [reflexivity|]. split; [|reflexivity]. intros a Ha. destruct (st =? 0) eqn:E; [discriminate|].
+      inversion Ha; subst a. lia.
+    - split; [destruct ovf; cbn [andb]; lia|]. split; [|discriminate].
+      intros a Ha. inversion Ha; subst a. lia.
+  Qed.
 
   Lemma d_elem_spec from to s0 i :
     from <= i -> i < to -> to <= len src -> to <= len starts -> get starts from = Some s0 ->
     let read_from := N.min (match ago_index op s0 with Some a => a | None => 0 end) from in
-    exists v, Dspec t op src starts i = Some v /\
+    exists v, D i = Some v /\
               d_elem ovf t op starts read_from (src_range src read_from to) i = EV v.
   Proof.
-    intros Hfi Hit Hts Htm Hs0 read_from. destruct WF as [Hmono Hcap].
+    intros Hfi Hit Hts Htm Hs0 read_from. pose proof WF as [Hmono _].
     destruct (get_lt_some starts i) as [start Hst]; [lia|].
     destruct (get_lt_some src i) as [cur Hcur]; [lia|].
     pose proof (Hmono from i s0 start Hfi Hs0 Hst) as Hss.
-    pose proof (Hcap i start ltac:(lia) Hst) as Hc. pose proof (cap_le i) as Hc1.
+    destruct (wf_facts i start ltac:(unfold L; lia) Hst) as [Hcnt [Hago Hnone]].
     assert (Hrf : read_from <= from) by (unfold read_from; lia).
-    unfold d_elem, Dspec. rewrite getb_get, Hst.
+    unfold d_elem, D, Dspec. rewrite getb_get, Hst.
     rewrite (get_src_range src read_from to i) by lia. rewrite Hcur.
     replace ((i <? len src) && (i <? len starts)) with true by lia.
-    assert (Hcnt : count_panics ovf i start = false).
-    { unfold count_panics. unfold start_cap in Hc. destruct ovf; [cbn [andb]; lia|reflexivity]. }
-    destruct (ago_index op start) as [idx|] eqn:Hago.
-    - assert (Hidx : read_from <= idx /\ idx < to).
-      { unfold read_from. unfold ago_index in *. unfold start_cap in Hc. destruct op.
-        - destruct (start =? 0) eqn:E0; [discriminate|]. inversion Hago; subst idx.
-          destruct (s0 =? 0) eqn:E1; destruct ovf; lia.
-        - inversion Hago; subst idx. destruct ovf; lia. }
-      destruct Hidx as [Hi1 Hi2].
+    destruct (ago_index op start) as [idx|] eqn:Hagoi.
+    - destruct (Hago idx eq_refl) as [Hi2 Hi3].
+      assert (Hi1 : read_from <= idx).
+      { unfold read_from. unfold ago_index in *. destruct op.
+        - destruct (start =? 0) eqn:E0; [discriminate|]. inversion Hagoi; subst idx.
+          destruct (s0 =? 0) eqn:E1; lia.
+        - inversion Hagoi; subst idx. lia. }
       replace (idx <? read_from) with false by lia.
       rewrite (get_src_range src read_from to idx) by lia.
       destruct (get_lt_some src idx) as [ago Hagov]; [lia|]. rewrite Hagov, Hcnt. eauto.
-    - destruct op; cbn [ago_index] in Hago; [|discriminate].
-      cbn [ago_default]. rewrite Hcnt. eauto.
+    - rewrite (Hnone eq_refl) in *. cbn [ago_default]. rewrite Hcnt. eauto.
   Qed.
 
   (* all four range methods (read_into_at, for_each_range_dyn_at, fold_range_at, try_fold_range_at) *)
   Lemma delta_range_spec from to :
-    d_range ovf t op src starts from to = map EV (ovals (Dspec t op src starts) (range_idx L from to)).
+    d_range ovf t op src starts from to = map EV (ovals D (range_idx L from to)).
   Proof.
     unfold d_range, range_idx, d_len, L. cbv zeta.
-    replace (N.min (N.min to (len src)) (len starts)) with (N.min to (N.min (len src) (len starts))) by lia.
+    replace (N.min (N.min to (N.min (len src) (len starts))) (len starts))
+      with (N.min to (N.min (len src) (len starts))) by lia.
     set (to' := N.min to (N.min (len src) (len starts))).
     destruct (to' <=? from) eqn:E.
     - replace (N.to_nat (to' - from)) with O by lia. reflexivity.
@@ -117,98 +134,336 @@ Section PD.
       apply (d_elem_spec from to' s0 i); unfold to' in *; try lia. exact Hs0.
   Qed.
 
-  (* consumed to the end: the formula values, no panic; with early exit after k: their first k *)
   Lemma delta_range_run from to :
-    run_all (d_range ovf t op src starts from to) = Ok (ovals (Dspec t op src starts) (range_idx L from to)).
+    run_all (d_range ovf t op src starts from to) = Ok (ovals D (range_idx L from to)).
   Proof. rewrite delta_range_spec. apply run_all_EV. Qed.
   Lemma delta_range_stop from to k :
     run_stop k (d_try_fold ovf t op src starts from to)
-    = Ok (take k (ovals (Dspec t op src starts) (range_idx L from to)),
-          k <? len (ovals (Dspec t op src starts) (range_idx L from to))).
+    = Ok (take k (ovals D (range_idx L from to)), k <? len (ovals D (range_idx L from to))).
   Proof. unfold d_try_fold. rewrite delta_range_spec. apply run_stop_EV. Qed.
 
-  Lemma delta_one_spec i : d_one ovf t op src starts i = Ok (Dspec t op src starts i).
+  Lemma Dspec_out_of_range i : L <= i -> D i = None.
   Proof.
-    destruct WF as [Hmono Hcap]. unfold d_one, Dspec, d_len, src_one. rewrite !getb_get.
-    destruct (len src <=? i) eqn:E1.
-    { replace (i <? len src) with false by lia. reflexivity. }
-    destruct (len starts <=? i) eqn:E2.
-    { replace (i <? len starts) with false by lia. now rewrite andb_false_r. }
-    replace ((i <? len src) && (i <? len starts)) with true by lia.
-    destruct (get_lt_some starts i) as [start Hst]; [lia|]. rewrite Hst.
-    destruct (get_lt_some src i) as [cur Hcur]; [lia|]. rewrite Hcur.
-    pose proof (Hcap i start ltac:(lia) Hst) as Hc.
-    assert (Hcnt : count_panics ovf i start = false).
-    { unfold count_panics. unfold start_cap in Hc. destruct ovf; [cbn [andb]; lia|reflexivity]. }
-    destruct (ago_index op start) as [idx|] eqn:Hago.
-    - rewrite getb_get. destruct (get src idx); [now rewrite Hcnt|reflexivity].
-    - destruct op; cbn [ago_index] in Hago; [|discriminate]. cbn [ago_default]. now rewrite Hcnt.
-  Qed.
-
-  Lemma Dspec_out_of_range i : L <= i -> Dspec t op src starts i = None.
-  Proof.
-    unfold L, Dspec. intros H.
+    unfold L, D, Dspec. intros H.
     replace ((i <? len src) && (i <? len starts)) with false by lia. reflexivity.
   Qed.
-  Lemma Dspec_in_range i : i < L -> exists v, Dspec t op src starts i = Some v.
+  Lemma Dspec_in_range i : i < L -> exists v, D i = Some v.
   Proof.
     intros H. unfold L in H.
     destruct (get_lt_some starts i) as [s0 Hs0]; [lia|].
     destruct (d_elem_spec i (i + 1) s0 i) as [v [Hv _]]; try lia; try exact Hs0.
     eauto.
   Qed.
+
+  Lemma delta_one_spec i : d_one ovf t op src starts i = Ok (D i).
+  Proof.
+    unfold d_one, d_len, src_one.
+    destruct (N.min (len src) (len starts) <=? i) eqn:E1.
+    { rewrite Dspec_out_of_range by (unfold L; lia). reflexivity. }
+    destruct (len starts <=? i) eqn:E2; [lia|].
+    rewrite !getb_get. unfold D, Dspec.
+    replace ((i <? len src) && (i <? len starts)) with true by lia.
+    destruct (get_lt_some starts i) as [start Hst]; [lia|]. rewrite Hst.
+    destruct (get_lt_some src i) as [cur Hcur]; [lia|]. rewrite Hcur.
+    destruct (wf_facts i start ltac:(unfold L; lia) Hst) as [Hcnt [Hago Hnone]].
+    destruct (ago_index op start) as [idx|] eqn:Hagoi.
+    - rewrite getb_get. destruct (get src idx); [now rewrite Hcnt|reflexivity].
+    - rewrite (Hnone eq_refl) in *. cbn [ago_default]. now rewrite Hcnt.
+  Qed.
+
+  (* cursor().get over the vector: its len() is L *)
+  Lemma delta_cursor_spec idx :
+    cursor_gets (d_len src starts) (fun f t' => run_all (d_read_into ovf t op src starts f t')) cursor_new idx
+    = Ok (map D idx).
+  Proof.
+    apply (cursor_gets_spec L D); [apply Dspec_in_range|apply Dspec_out_of_range| |apply cinv_new].
+    intros f t'. unfold d_read_into. apply delta_range_run.
+  Qed.
+
+  (* ---------------------------------------------------------------- read_sorted_into_at *)
+  (* 1. the reads built from the index list *)
+  Lemma d_reads_spec idx : forall slot0,
+    exists reads, d_reads op starts L slot0 idx = Some reads /\
+      Forall (fun r => (slot0 <= r_slot r /\ r_slot r < slot0 + len idx) /\ r_pos r < len src) reads /\
+      NoDup (map snd reads).
+  Proof.
+    induction idx as [|h tl IH]; intros slot0.
+    - exists []. cbn [d_reads map]. repeat split; [constructor|constructor].
+    - destruct (IH (slot0 + 1)) as [rest [Hr [Hf Hn]]]. cbn [d_reads]. rewrite Hr.
+      assert (Hf' : Forall (fun r => (slot0 <= r_slot r /\ r_slot r < slot0 + len (h :: tl)) /\ r_pos r < len src) rest).
+      { eapply Forall_impl; [|exact Hf]. intros r [[H1 H2] H3]. rewrite len_cons. repeat split; lia. }
+      assert (Hnot : forall b, ~ In (slot0, b) (map snd rest)).
+      { intros b Hin. apply in_map_iff in Hin as [r [Hs Hin]]. rewrite Forall_forall in Hf.
+        destruct (Hf r Hin) as [[H1 _] _]. unfold r_slot in H1. rewrite Hs in H1. cbn [fst] in H1. lia. }
+      destruct (h <? L) eqn:Eh; [|exists rest; auto].
+      destruct (get_lt_some starts h) as [st Hst]; [unfold L in Eh; lia|].
+      rewrite getb_get, Hst.
+      destruct (wf_facts h st ltac:(lia) Hst) as [_ [Hago _]].
+      assert (Hh : h < len src) by (unfold L in Eh; lia).
+      assert (Hs0 : (slot0 <= slot0 /\ slot0 < slot0 + len (h :: tl))) by (rewrite len_cons; lia).
+      destruct (ago_index op st) as [a|] eqn:Ea.
+      + destruct (Hago a eq_refl) as [_ Ha].
+        eexists. split; [reflexivity|]. split.
+        * constructor; [cbn; auto|]. constructor; [cbn; auto|]. exact Hf'.
+        * cbn [map snd]. constructor.
+          { intros [Heq|Hin]; [discriminate|]. exact (Hnot true Hin). }
+          constructor; [apply Hnot|exact Hn].
+      + eexists. split; [reflexivity|]. split.
+        * constructor; [cbn; auto|]. exact Hf'.
+        * cbn [map snd]. constructor; [apply Hnot|exact Hn].
+  Qed.
+
+  (* 2. positions / val_indices: every read finds its own position, however the reads are arranged *)
+  Lemma last_opt_get {A} (l : list A) p : last_opt l = Some p -> 0 < len l /\ get l (len l - 1) = Some p.
+  Proof.
+    unfold last_opt. destruct (rev l) as [|x r] eqn:E; [discriminate|]. intros H; inversion H; subst x.
+    assert (Hl : l = rev r ++ [p]).
+    { pose proof (rev_involutive l) as Hri. rewrite E in Hri. cbn [rev] in Hri. now symmetry. }
+    subst l. assert (Hlen : len (rev r ++ [p]) = len (rev r) + 1) by (rewrite len_app; unfold len; cbn [length]; lia).
+    rewrite Hlen. replace (len (rev r) + 1 - 1) with (len (rev r)) by lia. split; [lia|apply get_snoc].
+  Qed.
+
+  Lemma dedup_step_spec P V (r : read) : exists e,
+    d_dedup_step (P, V) r = (P ++ e, V ++ [len (P ++ e) - 1]) /\
+    get (P ++ e) (len (P ++ e) - 1) = Some (r_pos r) /\ 0 < len (P ++ e) /\
+    (forall x, In x e -> x = r_pos r).
+  Proof.
+    unfold d_dedup_step.
+    assert (Hsnoc : exists e, (P ++ [r_pos r], V ++ [len (P ++ [r_pos r]) - 1]) = (P ++ e, V ++ [len (P ++ e) - 1]) /\
+              get (P ++ e) (len (P ++ e) - 1) = Some (r_pos r) /\ 0 < len (P ++ e) /\ (forall x, In x e -> x = r_pos r)).
+    { exists [r_pos r].
+      assert (Hlen : len (P ++ [r_pos r]) = len P + 1) by (rewrite len_app; unfold len; cbn [length]; lia).
+      rewrite Hlen. replace (len P + 1 - 1) with (len P) by lia. split; [reflexivity|]. split; [apply get_snoc|]. split; [lia|].
+      intros x [Hx|[]]. now symmetry. }
+    destruct (last_opt P) as [p|] eqn:El; [|exact Hsnoc].
+    destruct (p =? r_pos r) eqn:Ep; [|exact Hsnoc].
+    exists []. rewrite app_nil_r. destruct (last_opt_get P p El) as [H0 Hg].
+    repeat split; auto. - rewrite Hg. f_equal. lia. - intros x [].
+  Qed.
+
+  Lemma dedup_spec rs : forall P V, exists Pe Ve,
+    fold_left d_dedup_step rs (P, V) = (P ++ Pe, V ++ Ve) /\
+    length Ve = length rs /\
+    (forall x, In x Pe -> exists r, In r rs /\ x = r_pos r) /\
+    forall tail, Forall2 (fun r vi => get (P ++ Pe ++ tail) vi = Some (r_pos r)) rs Ve.
+  Proof.
+    induction rs as [|r rt IH]; intros P V.
+    - exists [], []. cbn [fold_left]. rewrite !app_nil_r. repeat split; auto. intros x [].
+    - destruct (dedup_step_spec P V r) as [e [Hs [Hg [H0 He]]]].
+      cbn [fold_left]. rewrite Hs.
+      destruct (IH (P ++ e) (V ++ [len (P ++ e) - 1])) as [Pe [Ve [Hf [Hl [Hin Hall]]]]].
+      exists (e ++ Pe), ((len (P ++ e) - 1) :: Ve). rewrite Hf, <- !app_assoc. cbn [app length].
+      repeat split; [now rewrite Hl| |].
+      + intros x Hx. apply in_app_or in Hx as [Hx|Hx].
+        * exists r. split; [now left|now apply He].
+        * destruct (Hin x Hx) as [r' [Hr' Hx']]. exists r'. split; [now right|exact Hx'].
+      + intros tail. constructor.
+        * replace (P ++ (e ++ Pe) ++ tail) with ((P ++ e) ++ Pe ++ tail) by (now rewrite <- !app_assoc).
+          rewrite get_app_l by lia. exact Hg.
+        * specialize (Hall tail).
+          replace (P ++ (e ++ Pe) ++ tail) with ((P ++ e) ++ Pe ++ tail) by (now rewrite <- !app_assoc).
+          exact Hall.
+  Qed.
+
+  (* 3. current_vi / ago_vi *)
+  Lemma nth_opt_set_nth_same (l : list N) n x : (n < length l)%nat -> nth_opt (set_nth l n x) n = Some x.
+  Proof. revert n; induction l as [|a l IH]; intros [|n] H; cbn in *; try lia; [reflexivity|apply IH; lia]. Qed.
+  Lemma nth_opt_set_nth_other (l : list N) n m x : n <> m -> nth_opt (set_nth l n x) m = nth_opt l m.
+  Proof.
+    revert n m; induction l as [|a l IH]; intros [|n] [|m] H; cbn; try reflexivity; try congruence.
+    apply IH. congruence.
+  Qed.
+  Lemma length_set_nth (l : list N) n x : length (set_nth l n x) = length l.
+  Proof. revert n; induction l as [|a l IH]; intros [|n]; cbn; auto. Qed.
+
+  Lemma set_at_spec l i v : i < len l -> exists l',
+    set_at l i v = Some l' /\ len l' = len l /\ get l' i = Some v /\ (forall j, j <> i -> get l' j = get l j).
+  Proof.
+    intros H. unfold set_at. replace (i <? len l) with true by lia. eexists. split; [reflexivity|].
+    unfold len, get in *. rewrite length_set_nth. repeat split.
+    - apply nth_opt_set_nth_same. lia.
+    - intros j Hj. apply nth_opt_set_nth_other. lia.
+  Qed.
+
+  Lemma d_fill_spec rs : forall vis cur ago,
+    length vis = length rs ->
+    Forall (fun r => r_slot r < len cur /\ r_slot r < len ago) rs ->
+    NoDup (map snd rs) ->
+    exists cur' ago', d_fill rs vis cur ago = Some (cur', ago') /\
+      len cur' = len cur /\ len ago' = len ago /\
+      (forall r vi, In (r, vi) (List.combine rs vis) ->
+         if r_cur r then get cur' (r_slot r) = Some vi else get ago' (r_slot r) = Some vi) /\
+      (forall s, ~ In (s, true) (map snd rs) -> get cur' s = get cur s) /\
+      (forall s, ~ In (s, false) (map snd rs) -> get ago' s = get ago s).
+  Proof.
+    induction rs as [|r rt IH]; intros vis cur ago Hlen Hsl Hnd.
+    - exists cur, ago. cbn [d_fill List.combine]. repeat split; auto. intros r vi [].
+    - destruct vis as [|vi vt]; [discriminate|]. cbn [length] in Hlen.
+      inversion Hsl as [|? ? [Hc Ha] Hsl']; subst. cbn [map] in Hnd. inversion Hnd as [|? ? Hnotin Hnd']; subst.
+      destruct r as [pos [slot b]]. cbn [d_fill]. unfold r_cur, r_slot in *. cbn [fst snd] in *.
+      destruct b.
+      + destruct (set_at_spec cur slot vi Hc) as [cur1 [Hs [Hl1 [Hg1 Ho1]]]]. rewrite Hs.
+        destruct (IH vt cur1 ago ltac:(lia)) as [cur' [ago' [Hf [Hlc [Hla [Hin [Hfc Hfa]]]]]]]; [|exact Hnd'|].
+        { eapply Forall_impl; [|exact Hsl']. intros r [H1 H2]. rewrite Hl1. auto. }
+        exists cur', ago'. rewrite Hf. repeat split; [lia|lia| | |].
+        * intros r vi' [Heq|Hin']; [|now apply Hin]. inversion Heq; subst. cbn [fst snd].
+          rewrite Hfc by exact Hnotin. exact Hg1.
+        * intros s Hs'. cbn [map snd In] in Hs'. rewrite Hfc by tauto. apply Ho1.
+          intros ->. apply Hs'. now left.
+        * intros s Hs'. apply Hfa. cbn [map snd In] in Hs'. tauto.
+      + destruct (set_at_spec ago slot vi Ha) as [ago1 [Hs [Hl1 [Hg1 Ho1]]]]. rewrite Hs.
+        destruct (IH vt cur ago1 ltac:(lia)) as [cur' [ago' [Hf [Hlc [Hla [Hin [Hfc Hfa]]]]]]]; [|exact Hnd'|].
+        { eapply Forall_impl; [|exact Hsl']. intros r [H1 H2]. rewrite Hl1. auto. }
+        exists cur', ago'. rewrite Hf. repeat split; [lia|lia| | |].
+        * intros r vi' [Heq|Hin']; [|now apply Hin]. inversion Heq; subst. cbn [fst snd].
+          rewrite Hfa by exact Hnotin. exact Hg1.
+        * intros s Hs'. apply Hfc. cbn [map snd In] in Hs'. tauto.
+        * intros s Hs'. cbn [map snd In] in Hs'. rewrite Hfa by tauto. apply Ho1.
+          intros ->. apply Hs'. now left.
+  Qed.
+
+  Lemma in_combine_exists {A B} (l : list A) (m : list B) a :
+    In a l -> length m = length l -> exists b, In (a, b) (List.combine l m).
+  Proof.
+    revert m; induction l as [|x l IH]; intros [|y m] Hin Hlen; try discriminate; [destruct Hin|].
+    destruct Hin as [->|Hin]; [exists y; now left|].
+    destruct (IH m Hin ltac:(cbn in Hlen; lia)) as [b Hb]. exists b. now right.
+  Qed.
+  Lemma Forall2_combine {A B} (P : A -> B -> Prop) l m a b : Forall2 P l m -> In (a, b) (List.combine l m) -> P a b.
+  Proof.
+    induction 1 as [|x y l m Hxy _ IH]; intros Hin; [destruct Hin|].
+    destruct Hin as [Heq|Hin]; [inversion Heq; now subst|now apply IH].
+  Qed.
+
+  (* 4. the output loop, given that every read finds its value through current_vi / ago_vi *)
+  Lemma d_emit_spec vals cur ago (rs : list read) :
+    (forall r, In r rs -> exists vi,
+        (if r_cur r then get cur (r_slot r) else get ago (r_slot r)) = Some vi /\
+        getb vals vi = get src (r_pos r)) ->
+    forall idx slot0 reads, d_reads op starts L slot0 idx = Some reads -> incl reads rs ->
+    d_emit ovf t op starts L vals cur ago slot0 idx = map EV (ovals D idx).
+  Proof.
+    intros Hlook. induction idx as [|h tl IH]; intros slot0 reads Hr Hincl; [reflexivity|].
+    cbn [d_reads] in Hr. destruct (d_reads op starts L (slot0 + 1) tl) as [rest|] eqn:Erest; [|discriminate].
+    cbn [d_emit]. rewrite ovals_cons.
+    destruct (h <? L) eqn:Eh.
+    - replace (L <=? h) with false by lia.
+      destruct (get_lt_some starts h) as [st Hst]; [unfold L in Eh; lia|].
+      rewrite getb_get, Hst in Hr. rewrite getb_get, Hst.
+      destruct (wf_facts h st ltac:(lia) Hst) as [Hcnt [Hago Hnone]].
+      destruct (get_lt_some src h) as [cv Hcv]; [unfold L in Eh; lia|].
+      assert (HD : D h = match ago_index op st with
+                         | Some a => match get src a with Some av => Some (combine t op cv av) | None => None end
+                         | None => Some (combine t op cv 0%Z) end).
+      { unfold D, Dspec. replace ((h <? len src) && (h <? len starts)) with true by (unfold L in Eh; lia).
+        now rewrite Hst, Hcv. }
+      destruct (ago_index op st) as [a|] eqn:Ea.
+      + inversion Hr; subst reads.
+        destruct (Hlook (h, (slot0, true))) as [cvi [Hc1 Hc2]]; [apply Hincl; now left|].
+        destruct (Hlook (a, (slot0, false))) as [avi [Ha1 Ha2]]; [apply Hincl; right; now left|].
+        unfold r_cur, r_slot, r_pos in *. cbn [fst snd] in *.
+        rewrite !getb_get, Hc1, Hc2, Hcv, Ha1, Ha2.
+        destruct (Hago a eq_refl) as [_ Hal]. destruct (get_lt_some src a Hal) as [av Hav].
+        rewrite Hav in *. rewrite Hcnt, HD. cbn [map]. f_equal.
+        apply (IH (slot0 + 1) rest Erest). intros r Hin. apply Hincl. right. now right.
+      + inversion Hr; subst reads.
+        destruct (Hlook (h, (slot0, true))) as [cvi [Hc1 Hc2]]; [apply Hincl; now left|].
+        unfold r_cur, r_slot, r_pos in *. cbn [fst snd] in *.
+        rewrite !getb_get, Hc1, Hc2, Hcv. rewrite (Hnone eq_refl) in *. cbn [ago_default].
+        rewrite Hcnt, HD. cbn [map]. f_equal.
+        apply (IH (slot0 + 1) rest Erest). intros r Hin. apply Hincl. now right.
+    - replace (L <=? h) with true by lia. inversion Hr; subst reads.
+      rewrite Dspec_out_of_range by lia. now apply (IH (slot0 + 1) rest).
+  Qed.
+
+  (* 5. everything after the sort, for EVERY arrangement of the reads *)
+  Lemma delta_sorted_with_spec idx reads rs :
+    d_reads op starts L 0 idx = Some reads -> Permutation reads rs ->
+    d_sorted_with ovf t op src starts idx rs = Ok (ovals D idx).
+  Proof.
+    intros Hr Hperm.
+    destruct (d_reads_spec idx 0) as [reads' [Hr' [Hprops Hnd]]]. rewrite Hr in Hr'. inversion Hr'; subst reads'.
+    assert (Hprops' : Forall (fun r => (0 <= r_slot r /\ r_slot r < 0 + len idx) /\ r_pos r < len src) rs)
+      by (eapply Permutation_Forall; eassumption).
+    assert (Hnd' : NoDup (map snd rs)) by (eapply Permutation_NoDup; [apply Permutation_map; exact Hperm|exact Hnd]).
+    unfold d_sorted_with. cbv zeta.
+    replace (N.min (d_len src starts) (len starts)) with L by (unfold d_len, L; lia).
+    unfold d_dedup. destruct (dedup_spec rs [] []) as [Pe [Ve [Hf [Hl [Hin Hall]]]]].
+    rewrite Hf. cbn [app].
+    assert (Hslots : Forall (fun r => r_slot r < len (repeat 0 (length idx)) /\ r_slot r < len (repeat 0 (length idx))) rs).
+    { eapply Forall_impl; [|exact Hprops']. intros r [[_ H2] _]. rewrite len_repeat. unfold len in H2. lia. }
+    destruct (d_fill_spec rs Ve _ _ Hl Hslots Hnd') as [cur [ago [Hfill [_ [_ [Hlk _]]]]]].
+    rewrite Hfill.
+    assert (Hpos : Forall (fun x => exists v, get src x = Some v) Pe).
+    { apply Forall_forall. intros x Hx. destruct (Hin x Hx) as [r [Hr1 ->]].
+      rewrite Forall_forall in Hprops'. apply get_lt_some. apply (Hprops' r Hr1). }
+    rewrite (d_emit_spec (src_sorted src Pe) cur ago rs) with (reads := reads).
+    - apply run_all_EV.
+    - intros r Hr1. destruct (in_combine_exists rs Ve r Hr1 Hl) as [vi Hvi]. exists vi. split.
+      + pose proof (Hlk r vi Hvi) as Hk. destruct (r_cur r); exact Hk.
+      + specialize (Hall []). rewrite app_nil_r in Hall. cbn [app] in Hall.
+        pose proof (Forall2_combine _ _ _ _ _ Hall Hvi) as Hg.
+        rewrite getb_get, src_sorted_ovals, get_ovals_total by exact Hpos. now rewrite Hg.
+    - exact Hr.
+    - intros r Hr1. eapply Permutation_in; eassumption.
+  Qed.
+
+  (* the model's sort is one such arrangement *)
+  Lemma ins_read_perm r l : Permutation (r :: l) (ins_read r l).
+  Proof.
+    induction l as [|x tl IH]; cbn [ins_read]; [reflexivity|].
+    destruct (r_pos r <=? r_pos x); [reflexivity|].
+    etransitivity; [apply perm_swap|]. now constructor.
+  Qed.
+  Lemma sort_reads_perm l : Permutation l (sort_reads l).
+  Proof.
+    unfold sort_reads. induction l as [|r tl IH]; cbn [fold_right]; [reflexivity|].
+    etransitivity; [|apply ins_read_perm]. now constructor.
+  Qed.
+
+  Lemma delta_sorted_spec idx : d_sorted ovf t op src starts idx = Ok (ovals D idx).
+  Proof.
+    unfold d_sorted. destruct idx as [|i0 tl]; [reflexivity|]. cbv zeta.
+    replace (N.min (d_len src starts) (len starts)) with L by (unfold d_len, L; lia).
+    destruct (d_reads_spec (i0 :: tl) 0) as [reads [Hr _]]. rewrite Hr.
+    apply (delta_sorted_with_spec (i0 :: tl) reads); [exact Hr|apply sort_reads_perm].
+  Qed.
 End PD.
 
-(* ---- the full statement and its refutations -------------------------------------------------- *)
-(* "for ALL monotone window-start mappings every range read is the formula and does not panic" *)
-Definition delta_range_full : Prop :=
-  forall ovf t op src starts from to, mono_starts starts ->
-    run_all (d_range ovf t op src starts from to)
-    = Ok (ovals (Dspec t op src starts) (range_idx (N.min (len src) (len starts)) from to)).
+(* every outcome of sort_unstable_by_key is a permutation of the reads: the result does not depend on it *)
+Lemma delta_sorted_any_order ovf t op src starts idx reads rs :
+  wf_starts op src starts ->
+  d_reads op starts (N.min (len src) (len starts)) 0 idx = Some reads -> Permutation reads rs ->
+  d_sorted_with ovf t op src starts idx rs = Ok (ovals (Dspec t op src starts) idx).
+Proof. intros WF. now apply delta_sorted_with_spec. Qed.
 
-(* 1. an empty inclusive window (start = h + 1) with overflow checks on: `h - start + 1` panics,
-      although the formula (cum[h] - cum[h] = 0) is defined *)
-Lemma delta_empty_window_refuted :
-  exists src starts from to,
-    mono_starts starts /\
-    run_all (d_range true U64 DSub src starts from to) = Panic /\
-    ovals (Dspec U64 DSub src starts) (range_idx (N.min (len src) (len starts)) from to) = [0%Z] /\
-    (* the same request without overflow checks is fine *)
-    run_all (d_range false U64 DSub src starts from to) = Ok [0%Z].
-Proof.
-  exists [5%Z], [1], 0, 1. split; [|vm_compute; auto].
-  intros i j a b Hij Ha Hb.
-  destruct (N.eq_dec i 0) as [->|Hn]; [|apply get_some_lt in Ha; unfold len in Ha; cbn in Ha; lia].
-  destruct (N.eq_dec j 0) as [->|Hn]; [|apply get_some_lt in Hb; unfold len in Hb; cbn in Hb; lia].
-  rewrite Ha in Hb. inversion Hb. lia.
-Qed.
-
-(* 2. a window start running ahead of the index (monotone!): the bulk read indexes the collected
-      slice out of bounds, whatever the build profile, while collect_one_at returns the formula *)
-Lemma delta_start_after_index_refuted :
+(* ---- why the cap on the window start is a hypothesis ---------------------------------------------
+   a start running ahead of the index by more than an empty window (monotone!) is not a window; the
+   bulk read then indexes the collected slice out of bounds while collect_one_at still answers *)
+Lemma delta_start_cap_needed :
   exists src starts,
-    mono_starts starts /\
+    mono_starts starts /\ ~ wf_starts DSub src starts /\
     run_all (d_range false U64 DSub src starts 0 1) = Panic /\
-    d_one false U64 DSub src starts 0 = Ok (Some 0%Z) /\
-    Dspec U64 DSub src starts 0 = Some 0%Z.
+    d_one false U64 DSub src starts 0 = Ok (Some 0%Z).
 Proof.
-  exists [1; 2; 3]%Z, [3; 3; 3]. split; [|vm_compute; auto].
-  intros i j a b Hij Ha Hb.
-  assert (Hv : forall k v, get [3; 3; 3] k = Some v -> v = 3).
-  { intros k v H. pose proof (get_some_lt _ _ _ H) as Hl. unfold len in Hl. cbn in Hl.
-    assert (Hk : k = 0 \/ k = 1 \/ k = 2) by lia. destruct Hk as [-> | [-> | ->]]; vm_compute in H; now inversion H. }
-  rewrite (Hv _ _ Ha), (Hv _ _ Hb). lia.
+  exists [1; 2; 3]%Z, [3; 3; 3]. split; [|split; [|vm_compute; auto]].
+  - intros i j a b Hij Ha Hb.
+    assert (Hv : forall k v, get [3; 3; 3] k = Some v -> v = 3).
+    { intros k v H. pose proof (get_some_lt _ _ _ H) as Hl. unfold len in Hl. cbn in Hl.
+      assert (Hk : k = 0 \/ k = 1 \/ k = 2) by lia. destruct Hk as [-> | [-> | ->]]; vm_compute in H; now inversion H. }
+    rewrite (Hv _ _ Ha), (Hv _ _ Hb). lia.
+  - intros [_ Hcap]. specialize (Hcap 0 3). unfold len, start_cap in Hcap. cbn in Hcap.
+    specialize (Hcap ltac:(lia) eq_refl). lia.
 Qed.
 
-Lemma delta_range_full_refuted : ~ delta_range_full.
-Proof.
-  intros H. destruct delta_start_after_index_refuted as [src [starts [Hm [Hp _]]]].
-  rewrite (H false U64 DSub src starts 0 1 Hm) in Hp. discriminate.
-Qed.
+(* empty windows (start = h + 1) are fine with and without overflow checks (before /repo commit
+   a89006f `h - start + 1` panicked when checks were on) *)
+Example delta_empty_window ovf : run_all (d_range ovf U64 DSub [5%Z] [1] 0 1) = Ok [0%Z].
+Proof. destruct ovf; vm_compute; reflexivity. Qed.
 
-(* the hypotheses are satisfiable: a sliding window of width 2 over a cumulative source, a mapping
-   longer than the source *)
-Example wf_example : wf_starts true DSub [1; 3; 6; 10]%Z [0; 0; 1; 2; 3; 4].
+(* the hypotheses are satisfiable: a sliding window of width 2 over a cumulative source, with an empty
+   window, a mapping longer than the source *)
+Example wf_example : wf_starts DSub [1; 3; 6; 10]%Z [0; 0; 1; 4; 4; 4].
 Proof.
   split.
   - intros i j a b Hij Ha Hb.
@@ -216,9 +471,12 @@ Proof.
     unfold len in La, Lb. cbn in La, Lb.
     assert (Hi : i = 0 \/ i = 1 \/ i = 2 \/ i = 3 \/ i = 4 \/ i = 5) by lia.
     assert (Hj : j = 0 \/ j = 1 \/ j = 2 \/ j = 3 \/ j = 4 \/ j = 5) by lia.
-    destruct Hi as [->|[->|[->|[-> | [-> | ->]]]]]; vm_compute in Ha; inversion Ha; subst a;
-    destruct Hj as [->|[->|[->|[-> | [-> | ->]]]]]; vm_compute in Hb; inversion Hb; subst b; lia.
+    destruct Hi as [-> | [-> | [-> | [-> | [-> | ->]]]]]; vm_compute in Ha; inversion Ha; subst a;
+    destruct Hj as [-> | [-> | [-> | [-> | [-> | ->]]]]]; vm_compute in Hb; inversion Hb; subst b; lia.
   - intros h st Hh Hs. unfold len in Hh. cbn in Hh. unfold start_cap.
     assert (Hi : h = 0 \/ h = 1 \/ h = 2 \/ h = 3) by lia.
-    destruct Hi as [->|[-> | [-> | ->]]]; vm_compute in Hs; inversion Hs; lia.
+    destruct Hi as [-> | [-> | [-> | ->]]]; vm_compute in Hs; inversion Hs; lia.
 Qed.
+Example sorted_example :
+  d_sorted true U64 DSub [1; 3; 6; 10]%Z [0; 0; 1; 4; 4; 4] [0; 2; 2; 3; 7] = Ok [1; 5; 5; 0]%Z.
+Proof. vm_compute. reflexivity. Qed.
